@@ -839,8 +839,11 @@ type TCPConn struct {
 	wdl      time.Duration // write deadline in simulated time (0 = none)
 	SndBuf   int           // >0: octets this side may have outstanding (in flight or unread at the peer); a Write beyond that blocks
 	writers  []*simrt.Task
+	wlocked  bool          // a Write with a send-buffer limit is under way
+	wwait    []*simrt.Task // Writes waiting for it to end
 	lastArr  time.Duration // arrival time of the last scheduled segment towards the peer (keeps order)
 	inFlight [][]byte      // segments (nil = FIN) on their way to the peer, in stream order
+	linger0  bool          // SetLinger(0): Close discards what has not reached the peer and resets the connection
 	Lib      bool
 	// Segments, when non-nil, is consulted by the sender side of a harness connection to cut
 	// its writes: it returns the sizes of the segments the next write is split into.
@@ -886,7 +889,6 @@ func (c *TCPConn) LocalAddr() net.Addr                          { return c.local
 func (c *TCPConn) RemoteAddr() net.Addr                         { return c.remote }
 func (c *TCPConn) SetReadBuffer(int) error                      { return nil }
 func (c *TCPConn) SetWriteBuffer(int) error                     { return nil }
-func (c *TCPConn) SetLinger(int) error                          { return nil }
 func (c *TCPConn) SetKeepAlivePeriod(time.Duration) error       { return nil }
 func (c *TCPConn) SetKeepAliveConfig(net.KeepAliveConfig) error { return nil }
 func (c *TCPConn) CloseRead() error                             { return nil }
@@ -1069,7 +1071,28 @@ func (c *TCPConn) writeLimited(data []byte) (int, error) {
 	t := f.s.Me()
 	l := f.link(c.local.IP.String(), c.remote.IP.String())
 	written := 0
+	// one Write at a time, from its first octet to its last (or to its error): the runtime holds the
+	// descriptor's write lock across the whole call, waiting for room included
+	for {
+		f.mu.Lock()
+		if !c.wlocked || t == nil {
+			c.wlocked = true
+			f.mu.Unlock()
+			break
+		}
+		c.wwait = append(c.wwait, t)
+		f.mu.Unlock()
+		f.s.Block(t, "tcpwritelock")
+	}
 	finish := func(err error) (int, error) {
+		f.mu.Lock()
+		c.wlocked = false
+		ww := c.wwait
+		c.wwait = nil
+		f.mu.Unlock()
+		for _, w := range ww {
+			f.s.Unblock(w)
+		}
 		f.rec(Rec{Kind: "tcpwrite", Sock: c.Label, Src: c.local.String(), Dst: c.remote.String(), Data: data[:written]})
 		if err != nil {
 			return written, tcpErr("write", c, err)
@@ -1175,7 +1198,35 @@ func (c *TCPConn) Close() error {
 	}
 	c.closed = true
 	c.wakeReaders()
+	// (Writes of this connection that wait for room, or for their turn, end with an error)
+	own := append(c.writers, c.wwait...)
+	c.writers, c.wwait = nil, nil
+	for _, w := range own {
+		f.s.Unblock(w)
+	}
 	peer := c.peer
+	if c.linger0 {
+		// an abortive close: nothing that is still on its way arrives; the peer may read what it has
+		// got and finds the connection reset after that
+		lost := 0
+		for _, seg := range c.inFlight {
+			lost += len(seg)
+		}
+		c.inFlight = nil
+		if peer.rxErr == nil {
+			peer.rxErr = errors.New("connection reset by peer")
+		}
+		peer.wakeReaders()
+		ws := peer.writers
+		peer.writers = nil
+		f.mu.Unlock()
+		for _, w := range ws {
+			f.s.Unblock(w)
+		}
+		f.fired("tcp-linger0-close")
+		f.s.Logf("net close %s (linger 0: reset, %d octets in flight discarded)", c.Label, lost)
+		return nil
+	}
 	now := f.s.Now()
 	d := c.lastArr - now
 	if d < 0 {
@@ -1204,6 +1255,15 @@ func (c *TCPConn) Reset() {
 	f.fired("tcp-rst")
 	f.mu.Unlock()
 	f.s.Logf("net reset %s", c.Label)
+}
+
+// SetLinger replaces (*net.TCPConn).SetLinger: with 0 seconds Close becomes abortive (unsent data is
+// discarded and the peer sees a reset); any other value leaves the orderly close in place.
+func (c *TCPConn) SetLinger(sec int) error {
+	c.f.mu.Lock()
+	c.linger0 = sec == 0
+	c.f.mu.Unlock()
+	return nil
 }
 
 // CloseWrite half-closes the connection.
